@@ -46,7 +46,7 @@ type solver struct {
 	// stats
 	Queries, Sat, Unsat, Unknown int
 	CacheHits                    int
-	AltUsed, BVUsed              int
+	AltUsed, BVUsed, Retried     int
 	alt                          *solver
 	Time                         time.Duration
 }
@@ -433,6 +433,16 @@ func (s *solver) checkSliced(pc []pcEntry, extra []*Term) (checkResult, Model, m
 	if res == resUnknown && bvOK && !triedBV {
 		res, model = runBV(bs, bvars, s.timeout*4)
 		s.BVUsed++
+	}
+	if res == resUnknown && s.alt != nil && s.alt.kind == SolverCVC5 {
+		// last resort before the run is declared inconclusive: the one-shot solver once
+		// more with three times the budget (a loaded machine must not turn a decidable
+		// query into an inconclusive check)
+		old := s.alt.timeout
+		s.alt.timeout = min(3*old, 180*time.Second)
+		res, model = s.alt.runScript(script, vars)
+		s.alt.timeout = old
+		s.Retried++
 	}
 	if res != resUnknown {
 		queryCache.Store(key, cacheEntry{res, model})
